@@ -184,6 +184,9 @@ def sany_all():
         if f.endswith('.tla'):
             shutil.copy(os.path.join(SPECS, f), os.path.join(d, f))
     for f in sorted(os.listdir(d)):
+        with open(os.path.join(d, f)) as fh:
+            if re.search(r'^EXTENDS.*\bApalache\b', fh.read(), re.M):
+                continue            # typed module for Apalache (its standard module is not on SANY's path); see tools/setup.py
         p = subprocess.run(['java', '-Djava.io.tmpdir=' + d, '-cp', JAR + ':' + DEPS, 'tla2sany.SANY', f], cwd=d,
                            stdout=subprocess.PIPE, stderr=subprocess.STDOUT, universal_newlines=True)
         ok = p.returncode == 0 and 'rror' not in p.stdout.replace('Semantic errors:', 'Semantic errs:') or \
